@@ -20,7 +20,10 @@ Definition same_res {A : Type} (x y : res A) : Prop :=
 (* ------------------------------------------------------------------ the redirect test *)
 
 Theorem gen_inner_is_redirect_eq f : gen_inner_is_redirect (i_status f) = is_redirect f.
-Proof. unfold gen_inner_is_redirect, is_redirect. destruct (i_status f); reflexivity. Qed.
+Proof.
+  unfold gen_inner_is_redirect, is_redirect. destruct (i_status f) as [s|]; [|reflexivity].
+  destruct (is_redirection s), (s =? 304); reflexivity.
+Qed.
 
 (* ------------------------------------------------------------------ the response body reader, asked by the call and the flow *)
 
